@@ -26,16 +26,30 @@ RULE = ("cases = (route, word) over all routes of vlib/routes.py plus (host spel
         "strings re-parsed per shard.")
 ASSUMPTIONS = ["a candidate scheme made only of scheme characters but not ALPHA-led is outside the domain (verdict unspecified)"]
 
-FIELDS = ("scheme", "raw_user", "raw_password", "raw_host", "port", "raw_path", "raw_query_string", "raw_fragment")
+RAW_FIELDS = ("scheme", "raw_user", "raw_password", "raw_host", "port", "raw_path", "raw_query_string", "raw_fragment")
+DECODED_FIELDS = ("user", "password", "host", "path", "query_string", "fragment")   # functions of the raw parts: equal raw parts, equal views
+FIELDS = RAW_FIELDS + DECODED_FIELDS
+
+
+def _view(u, f):
+    try:
+        return getattr(u, f)
+    except ValueError as e:   # e.g. an A-label no IDNA decoder takes: the same refusal on both sides is fine
+        return ("ValueError", str(e)[:60])
 
 
 def observe(u):
-    o = [getattr(u, f) for f in FIELDS]
+    o = [getattr(u, f) for f in RAW_FIELDS]
     if o[1] == "":
         o[1] = None  # empty user is the same as absent user
     if o[3] == "":
         o[3] = None  # an authority without host: eager '' vs lazy None is C09's finding F7a, not a re-parse difference
-    return tuple(o)
+    d = [_view(u, f) for f in DECODED_FIELDS]
+    if d[0] == "":
+        d[0] = None
+    if d[2] == "":
+        d[2] = None
+    return tuple(o + d)
 
 
 def in_domain(acc, u, info):
